@@ -7,9 +7,13 @@ package dastard
 // Oracle (written from the property statement; the reference is the harness's own record of
 // what each group sent and what reached the source):
 //
-//	reference(g)[i]  = the frames of packet i if ReadAllPackets handed it to the source in
-//	                   the run phase ("real slot"), else a filler slot of the same frame
-//	                   count (lost, discarded before the run, or consumed by Sample()).
+//	reference(g)[i]  = the frames of packet i if the source received it ("real slot": handed
+//	                   over by ReadAllPackets in the run phase, or by samplePackets during
+//	                   start-up), else a filler slot of the same frame count (lost, or
+//	                   discarded before the run). Fillers stand for lost packets only: a
+//	                   packet that start-up sampling consumed was not lost, so the output
+//	                   either starts after it or shows its samples
+//	                   (content:filler-for-packet-not-lost).
 //	g0               = packet index of the first slot emitted; one value for all groups;
 //	                   g0 <= S, S = first index for which every group has a slot after
 //	                   start-up (= 1 + the largest index any group handed to Sample()); only
@@ -115,12 +119,18 @@ func newC03Oracle(w *abacoSimWorld, rule string) *c03Oracle {
 }
 
 func (o *c03Oracle) real(g *abacoSimGroup, idx int) bool {
-	return idx >= 0 && idx < o.w.npackets && g.fate[idx] == abacoSimDelivered
+	return idx >= 0 && idx < o.w.npackets && (g.fate[idx] == abacoSimDelivered || g.fate[idx] == abacoSimSampled)
+}
+
+// filler: a slot of the reference that stands for a lost (or discarded) packet.
+func (o *c03Oracle) filler(g *abacoSimGroup, idx int) bool {
+	return g.fate[idx] != abacoSimDelivered && g.fate[idx] != abacoSimSampled
 }
 
 // fits reports whether the block is consistent with g0 = c for group g; if not, the first
-// offending position.
-func (o *c03Oracle) fits(g *abacoSimGroup, b *dataBlock, c int) (ok bool, pos, idx, ch int) {
+// offending position. sampledAsFiller (diagnosis only) reads the slots of packets that start-up
+// sampling consumed as filler slots.
+func (o *c03Oracle) fits(g *abacoSimGroup, b *dataBlock, c int, sampledAsFiller bool) (ok bool, pos, idx, ch int) {
 	w := o.w
 	L := len(b.segments[0].rawData)
 	for j := 0; j < L; j++ {
@@ -134,7 +144,7 @@ func (o *c03Oracle) fits(g *abacoSimGroup, b *dataBlock, c int) (ok bool, pos, i
 			// not known to be lost cannot have been emitted
 			return false, j, idx, -1
 		}
-		if g.fate[idx] != abacoSimDelivered {
+		if g.fate[idx] != abacoSimDelivered && (g.fate[idx] != abacoSimSampled || sampledAsFiller) {
 			continue
 		}
 		for ch := 0; ch < g.nchan; ch++ {
@@ -144,6 +154,18 @@ func (o *c03Oracle) fits(g *abacoSimGroup, b *dataBlock, c int) (ok bool, pos, i
 		}
 	}
 	return true, 0, 0, 0
+}
+
+// showsDelivered: with g0 = c, do the next n frames include a packet of the run phase? (Only then
+// does a fit that reads sampled packets' slots as fillers say anything.)
+func (o *c03Oracle) showsDelivered(g *abacoSimGroup, c, n int) bool {
+	w := o.w
+	for j := 0; j < n; j++ {
+		if idx := (c*w.fpp + o.emitted + j) / w.fpp; idx < w.npackets && g.fate[idx] == abacoSimDelivered {
+			return true
+		}
+	}
+	return false
 }
 
 // chunkIs reports whether the block, from position pos to the end of that packet's worth
@@ -258,7 +280,7 @@ func (o *c03Oracle) onBlock(b *dataBlock) {
 		type miss struct{ c, pos, idx, ch int }
 		var lastMiss *miss
 		for _, c := range o.cands[gi] {
-			ok, pos, idx, ch := o.fits(g, b, c)
+			ok, pos, idx, ch := o.fits(g, b, c, false)
 			if ok {
 				keep = append(keep, c)
 			} else if lastMiss == nil || c <= o.S {
@@ -266,6 +288,15 @@ func (o *c03Oracle) onBlock(b *dataBlock) {
 			}
 		}
 		if len(keep) == 0 {
+			// filler frames where a packet consumed by start-up sampling would be?
+			for ci := len(o.cands[gi]) - 1; ci >= 0; ci-- {
+				c := o.cands[gi][ci]
+				if ok, _, _, _ := o.fits(g, b, c, true); ok && o.showsDelivered(g, c, L) {
+					_, pos, idx, _ := o.fits(g, b, c, false)
+					o.fail("content", "content:filler-for-packet-not-lost", "group %d (channels %d..%d) block %d position %d: the output fits the stream from packet %d on only if packet %d is a filler slot, but that packet was not lost: start-up sampling received it (the group's packets 0..%d were sampled, its first packet of the run phase is %d); %d frames emitted before this block of %d; candidates before this block %v",
+						g.ord, g.firstChan, g.firstChan+g.nchan-1, o.blocks, pos, c, idx, g.lastSampled, g.firstRun, o.emitted, L, o.cands[gi])
+				}
+			}
 			// report against the most plausible start: the single candidate that had
 			// survived so far, else the latest admissible one
 			m := lastMiss
@@ -401,7 +432,7 @@ func (o *c03Oracle) finalChecks() (g0 int) {
 	fill, slack := 0, 0
 	for _, g := range w.groups {
 		for idx := g0; idx < w.npackets; idx++ {
-			if g.fate[idx] != abacoSimDelivered {
+			if o.filler(g, idx) {
 				fill += w.fpp
 			}
 		}
@@ -442,7 +473,7 @@ func (o *c03Oracle) truncatedChecks() int {
 		fillLo, fillHi, slack, later := 0, 0, 0, 0
 		for _, g := range w.groups {
 			for idx := c; idx < c+hi && idx < w.npackets; idx++ {
-				if g.fate[idx] != abacoSimDelivered {
+				if o.filler(g, idx) {
 					fillHi += w.fpp
 					if idx < c+lo {
 						fillLo += w.fpp
